@@ -146,7 +146,7 @@ def gen_op(d: Draw, cfg, prop):
 def _gen_op(d: Draw, cfg, prop):
     n = cfg['N']
     model = cfg['model']
-    kinds = [('w.set_state', 5), ('o.set_state', 3), ('o.setter', 4), ('w.prop.orbit', 4)]
+    kinds = [('w.set_state', 5), ('o.set_state', 3), ('o.setter', 4), ('w.prop.orbit', 4), ('w.aug', 1)]
     if prop == 'C13':
         kinds += [('w.obliquity', 2), ('o.time', 1)]
         if not cfg['sync']:
@@ -186,6 +186,11 @@ def _gen_op(d: Draw, cfg, prop):
         kind = d.pick(SEP_KINDS + ['eccentricity'])
         return {'op': 'o.setter', 'name': 'set_' + kind, 'sig': d.pick(['instance', 'name']),
                 'args': {'value': gen_value(d, kind, n)}}
+    if k == 'w.aug':
+        name, kind = d.pick([('semi_major_axis', 'semi_major_axis'), ('orbital_frequency', 'orbital_frequency'),
+                             ('orbital_period', 'orbital_period'), ('orbital_freq', 'orbital_frequency'), ('n', 'orbital_frequency'),
+                             ('orbital_motion', 'orbital_frequency')])
+        return {'op': 'w.aug', 'name': name, 'kind': kind, 'factor': d.pick([0.5, 2.0, 1.2, 0.9])}
     if k == 'w.prop.orbit':
         name, kind = d.pick([('eccentricity', 'eccentricity'), ('semi_major_axis', 'semi_major_axis'),
                              ('orbital_frequency', 'orbital_frequency'), ('orbital_period', 'orbital_period'),
@@ -495,10 +500,18 @@ class OopStateEngine(EngineBase):
             label = _op_label(op)
             bump('op:' + op['op'] + (':' + op.get('name', '') if op.get('name') else '') + ('@host' if op.get('target') == 'host' else ''))
             raised = None
+            applied = None
             try:
-                hist.apply(op)
+                applied = hist.apply(op)
             except Exception as e:
                 raised = e
+            if op['op'] == 'w.aug':
+                if applied == 'skipped' or applied is None:
+                    if raised is None:
+                        trace.append('%2d %s -> skipped (nothing stored yet)' % (i, label))
+                        continue
+                else:
+                    op = dict(op, op='w.prop', args={'value': applied})      # for the model: a plain assignment of the new value
             model_apply(state, op, len(getattr(hist, 'all_layers', [])) or None)
             if raised is not None:
                 # policy (DESIGN 3.2): an operation that raises mid-cascade ends the history; the only thing asserted is
@@ -763,9 +776,9 @@ def _abstract(state):
         elif k == 'T':
             out[k] = {str(i): (x['v'], x['arr']) for i, x in v.items()}
         elif isinstance(v, tuple):
-            out[k] = (v[0], v[1]['v'], v[1]['arr'])
+            out[k] = (v[0], repr(v[1].get('raw', v[1].get('v'))), v[1].get('arr'))
         else:
-            out[k] = (v['v'], v['arr'])
+            out[k] = (repr(v.get('raw', v.get('v'))), v.get('arr'))
     return out
 
 
@@ -781,9 +794,9 @@ def _trigger(op):
     if op['op'] == 'o.setter':
         k = op['name'][4:]
         return 'sep' if k in SEP_KINDS else k
-    if op['op'] in ('w.prop', 'w.method'):
+    if op['op'] in ('w.prop', 'w.method', 'w.aug'):
         k = op['kind']
-        return 'sep' if k in SEP_KINDS else 'spin' if k in SPIN_KINDS else k
+        return ('aug:' if op['op'] == 'w.aug' else '') + ('sep' if k in SEP_KINDS else 'spin' if k in SPIN_KINDS else k)
     if op['op'] == 'tides.set_state':
         return '+'.join(sorted(op['args']))
     if op['op'] == 'o.time':
@@ -801,7 +814,12 @@ def _op_label(op):
 
 
 def _op_label1(op):
+    if op['op'] == 'w.aug':
+        return 'w.%s *= %g  (in place%s)' % (op['name'], op['factor'], '; body%s' % op['target'] if op.get('target') else '')
+
     def val(v):
+        if isinstance(v, dict) and 'raw' in v:
+            return 'raw'
         if isinstance(v, dict):
             return ('%g' % v['v']) + ('[]' if v.get('arr') else '') + ('(0@%d)' % v['zero_at'] if v.get('zero_at') else '')
         return repr(v)
